@@ -119,6 +119,22 @@ def gen(ctx):
                 continue     # crossing bounds: the manual's slice_upd formula is stated for start <= end
             for u in (["map(.+1)", "(map(.+1), .)", "[]"] if isinstance(x, list) else ["ascii_upcase", ". + .", "\"\""]):
                 cases.append(dict(filter=ST + defs + "[st(.[$i:$j] |= (%s)), st(slice_upd($i; $j; %s; error))]" % (u, u), inputs=[from_json(x)], vars=[("i", I(i)), ("j", I(j))], kind="rule-slice_upd", eq=(".[$i:$j] |= " + u, "slice_upd")))
+    # updating through the positions path(p) lists is updating through p: getpath($p) |= u, setpath, delpaths on every kind
+    # of container (arrays, objects, text strings by slices), for paths that do not depend on the values they update
+    # (no null containers and no `?` here: reading null.a yields null where updating it refuses; delpaths deletes in the
+    # order given, relative to the current value, hence from the right)
+    simple = [".[1:3]", ".[:1]", ".[1:]", ".[-1:]", ".[:-1]", ".[0]", ".[-1]", ".a", ".[]", ".a[1:]", ".[0][1:]", ".[0][:1]", ".a.b", ".[1:][:1]",
+              ".[{\"start\":1,\"end\":3}]", ".[{\"start\":1}]", ".[{\"end\":-1}]"]
+    conts = ["abcd", "a", "", "\u00e9\u20acxy", [1, 2, 3, 4], [], ["abcd", [1, 2, 3]], {"a": "xyz", "b": [1, 2]}, {"a": {"b": "uvw"}}, [[1, 2, 3], "pq"], 5]
+    us = ["if type == \"string\" then ascii_upcase else . end", ".", "if type == \"string\" then . + \"!\" elif type == \"array\" then . + [0] else . end",
+          "if type == \"string\" then \"\" elif type == \"array\" then [] else null end", "[.]"]
+    for p in simple:
+        for x in conts:
+            u = rng.choice(us)
+            xv = from_json(x)
+            cases.append(dict(filter=ST + "[st(%s |= (%s)), st(getpath(path(%s)) |= (%s))]" % (p, u, p, u), inputs=[xv], kind="rule-getpath_upd", eq=(p + " |= " + u, "getpath(path(p)) |= u")))
+            cases.append(dict(filter=ST + "[st(%s |= (%s)), st(reduce path(%s) as $q (.; setpath($q; getpath($q) | %s)))]" % (p, u, p, u), inputs=[xv], kind="rule-setpath_upd", eq=(p + " |= " + u, "reduce path(p) as $q (.; setpath($q; getpath($q) | u))")))
+            cases.append(dict(filter=ST + "[st(del(%s)), st(delpaths([path(%s)] | reverse))]" % (p, p), inputs=[xv], kind="rule-delpaths", eq=("del(" + p + ")", "delpaths([path(p)] | reverse)")))
     # value-constructing expressions have no path and cannot be updated
     for e in VALUE_EXPRS:
         for inp in rng.sample(inputs, 3):
